@@ -1,0 +1,52 @@
+// SPDX-FileCopyrightText: 2026 The Pion community <https://pion.ly>
+// SPDX-License-Identifier: MIT
+
+//go:build verif
+
+package webrtc
+
+// Contracts for C28 (sample-based tracks timestamp and sequence RTP without drift): the
+// per-sample step of WriteSample. float64 operations are uninterpreted functions here (the
+// same function symbols in the code and in the clauses), so what is decided is the dataflow
+// of the step — which quantities are handed to the packetizer and stored — not the
+// arithmetic facts about floor and rounding. Comments only.
+
+// Assumed contracts on pion/rtp: the sequencer and packetizer calls are events (ghost
+// counters) that do not write this package's memory.
+//@ func (rtp.Sequencer).NextSequenceNumber
+//@ trusted
+//@ props C28
+//@ ghost seqSkips += 1
+//@ modifies nothing
+//@ func (rtp.Packetizer).SkipSamples
+//@ trusted
+//@ props C28
+//@ ghost sampleSkips += 1
+//@ modifies nothing
+//@ func (rtp.Packetizer).Packetize
+//@ trusted
+//@ props C28
+//@ ghost packetizeCalls += 1
+//@ modifies nothing
+
+//@ field TrackLocalStaticSample.remainder props C28 writers (*TrackLocalStaticSample).WriteSample
+
+// One sample: the sequencer is stepped exactly PrevDroppedPackets times before the sample is
+// packetized; if packets were dropped, SkipSamples is called once with
+// uint32(t*N + r) where t = Duration.Seconds()*clockRate, N the dropped count and r the stored
+// remainder, and r becomes the fraction left; Packetize is called exactly once with the
+// sample's data and uint32(t + r), and the stored remainder becomes (t + r) - float64(that).
+//@ func (*TrackLocalStaticSample).WriteSample
+//@ props C28
+//@ nosafety
+//@ requires s != nil && s.rtpTrack != nil
+//@ atcall (rtp.Packetizer).SkipSamples assert sample.PrevDroppedPackets > 0 && ghost(sampleSkips) == old(ghost(sampleSkips)) && ghost(seqSkips) == old(ghost(seqSkips)) + uint64(sample.PrevDroppedPackets)
+//@ atcall (rtp.Packetizer).SkipSamples assert callarg1 == uint32(sample.Duration.Seconds()*clockRate*float64(sample.PrevDroppedPackets) + old(s.remainder))
+//@ atcall (rtp.Packetizer).Packetize assert ghost(seqSkips) == old(ghost(seqSkips)) + uint64(sample.PrevDroppedPackets) && ghost(sampleSkips) == old(ghost(sampleSkips)) + ite(sample.PrevDroppedPackets > 0, 1, 0) && ghost(packetizeCalls) == old(ghost(packetizeCalls))
+//@ atcall (rtp.Packetizer).Packetize assert sameptr(callarg1, sample.Data) && len(callarg1) == len(sample.Data) && callarg2 == curTicks && samebits(s.remainder, curTotal - float64(curTicks))
+//@ atcall (rtp.Packetizer).Packetize assert sample.PrevDroppedPackets == 0 ==> samebits(curTotal, sample.Duration.Seconds()*clockRate + old(s.remainder))
+//@ atcall (rtp.Packetizer).Packetize assert sample.PrevDroppedPackets > 0 ==> samebits(curTotal, sample.Duration.Seconds()*clockRate + ((sample.Duration.Seconds()*clockRate*float64(sample.PrevDroppedPackets) + old(s.remainder)) - float64(uint32(sample.Duration.Seconds()*clockRate*float64(sample.PrevDroppedPackets) + old(s.remainder)))))
+//@ ensures old(s.packetizer) != nil ==> ghost(packetizeCalls) == old(ghost(packetizeCalls)) + 1
+//@ ensures old(s.packetizer) == nil ==> ghost(packetizeCalls) == old(ghost(packetizeCalls)) && samebits(s.remainder, old(s.remainder))
+//@ loop 0 invariant ghost(seqSkips) == old(ghost(seqSkips)) + uint64(i) && i <= sample.PrevDroppedPackets && ghost(sampleSkips) == old(ghost(sampleSkips)) && ghost(packetizeCalls) == old(ghost(packetizeCalls)) && samebits(s.remainder, old(s.remainder))
+//@ loop 1 invariant ghost(packetizeCalls) == old(ghost(packetizeCalls)) + 1
